@@ -143,7 +143,18 @@ fn guarded<T, F: FnOnce() -> Result<T, String>>(f: F, show: impl FnOnce(T) -> St
             let s = show(v);
             if s.is_empty() { "r ok".into() } else { format!("r ok {}", s) }
         }
-        Ok(Err(m)) => format!("r err {}", classify_err(&m)),
+        Ok(Err(m)) => {
+            if std::env::var("AXH_ERRTEXT").is_ok() {
+                // C20: the full error text, as a checksum (x line: not part of the impl<->model tie)
+                let mut h: u64 = 0xcbf29ce484222325;
+                for b in m.as_bytes() {
+                    h = (h ^ (*b as u64)).wrapping_mul(0x100000001b3);
+                }
+                format!("r err {} text={:x}", classify_err(&m), h)
+            } else {
+                format!("r err {}", classify_err(&m))
+            }
+        }
         Err(p) => format!("r panic {}", classify_panic(&panic_msg(p))),
     }
 }
